@@ -263,15 +263,14 @@ func firstFit(g *rg.G, order []int) []int {
 		col[i] = -1
 	}
 	for _, v := range order {
-		for x := 0; ; x++ {
-			free := true
-			for u := 0; u < n; u++ {
-				if u != v && g.Has(u, v) && col[u] == x {
-					free = false
-					break
-				}
+		taken := make([]bool, n+1) // colours of the already coloured neighbours of v
+		for u := 0; u < n; u++ {
+			if u != v && col[u] >= 0 && g.Has(u, v) {
+				taken[col[u]] = true
 			}
-			if free {
+		}
+		for x := 0; ; x++ {
+			if !taken[x] {
 				col[v] = x
 				break
 			}
